@@ -27,6 +27,7 @@
 #include <complex.h>
 #include <ctype.h>
 #include <errno.h>
+#include <limits.h>
 #include <math.h>
 #include <stdarg.h>
 #include <stdio.h>
@@ -82,15 +83,26 @@ static int parse_int(vnacal_load_state_t *vlsp,
 	yaml_node_t *node, int *result)
 {
     vnacal_t *vcp = vlsp->vls_vcp;
-    char extra;
+    const char *text;
+    char *end;
+    long temp;
 
     if (node->type != YAML_SCALAR_NODE) {
 	goto error;
     }
-    if (sscanf((const char *)node->data.scalar.value, "%d %c",
-		result, &extra) != 1) {
+    text = (const char *)node->data.scalar.value;
+    errno = 0;
+    temp = strtol(text, &end, 10);
+    if (end == text || errno == ERANGE || temp < INT_MIN || temp > INT_MAX) {
 	goto error;
     }
+    while (*end == ' ' || *end == '\t' || *end == '\n') {
+	++end;
+    }
+    if (*end != '\000') {
+	goto error;
+    }
+    *result = (int)temp;
     return 0;
 
 error:
